@@ -65,14 +65,17 @@ class CurveBase(ElementBase):
         estimation can be supplied."""
         # because curves can have all sorts of shapes, find
         # initial guess by checking distance to discretized points
+        return self._get_coarse_params(point)[0]
+
+    def _get_coarse_params(self, point: PointType) -> np.ndarray:
+        """Parameters of discretized points, sorted by their distance from given point (closest first)"""
         point = np.array(point)
         all_points = self.discretize()
 
         distances = np.array([f.norm(p - point) for p in all_points])
         params = np.linspace(self.bounds[0], self.bounds[1], num=len(distances))
 
-        i_distance = np.argmin(distances)
-        return params[i_distance]
+        return params[np.argsort(distances, kind="stable")]
 
     def get_param_at_length(self, length: float) -> float:
         """Returns parameter at specified length along the curve"""
@@ -138,14 +141,20 @@ class FunctionCurveBase(PointCurveBase):
         """Finds the param on curve where point is the closest to given point;
         To improve search speed and reliability, an optional starting
         estimation can be supplied."""
-        param_start = super().get_closest_param(point)
         point = np.array(point)
 
-        result = scipy.optimize.minimize(
-            lambda t: f.norm(self.get_point(t[0]) - point), (param_start,), bounds=(self.bounds,)
-        )
+        def distance(params):
+            return f.norm(self.get_point(params[0]) - point)
 
-        return result.x[0]
+        # A bounded minimization only finds the local minimum next to its starting point but
+        # a curve can come close to the point in more than one place (the two ends of a closed curve
+        # are the same place): start from a few closest discretized points and keep the best result
+        results = [
+            scipy.optimize.minimize(distance, (param_start,), bounds=(self.bounds,))
+            for param_start in self._get_coarse_params(point)[:3]
+        ]
+
+        return min(results, key=lambda result: result.fun).x[0]
 
     def get_point(self, param: float) -> NPPointType:
         self._check_param(param)
